@@ -209,7 +209,7 @@ theorem slot_with_false_condition_renders_nothing (W : World) (f : Nat) (ctx : C
     (hfalse : evalCondition W.P st.stack c = .ok false) :
     evalList W (f + 2) ctx st [.elem (S "slot") attrs kids] = .ok ([], st) := by
   have hne2 : (c == []) = false := by simpa using hne
-  simp [evalList, honce, hpre, hfor, hif, hc, chainSelect, hne2, hfalse, chainScan, bindE]
+  simp [evalList, onceHereOf, honce, hpre, hfor, hif, hc, chainSelect, hne2, hfalse, chainScan, bindE]
 
 /-- every bound attribute of a `<slot>` is a PROP of that use, whatever it is called: `:name="e"` is the prop `name` - it neither names the
     slot (the static `name` attribute does, `default` without one) … -/
